@@ -173,11 +173,13 @@ def main():
         cli(sys.argv, mode='output')
 
     except ValueError as e:
-        error_msg("GRAPH ERROR: " + str(e))
+        with msg_prefix('c '):
+            error_msg("GRAPH ERROR: " + str(e))
         sys.exit(-1)
 
     except CLIError as e:
-        error_msg(str(e))
+        with msg_prefix('c '):
+            error_msg(str(e))
         sys.exit(-1)
 
     except InternalBug as e:
@@ -192,7 +194,8 @@ def main():
 
     except OSError as e:
         # unreadable input or unwritable output is an error, not a success
-        error_msg("ERROR: " + str(e))
+        with msg_prefix('c '):
+            error_msg("ERROR: " + str(e))
         sys.exit(-1)
 
     # avoid signaling BrokenPipeError as whatnot
